@@ -44,17 +44,17 @@ ASSUMPTIONS = [
 
 KINDS = {
     # kind: (modes, query kinds)
-    "earley": (["bool", "poly", "float", "maxtimes", "real"], ["call", "ntw", "call"]),
+    "earley": (["bool", "poly", "float", "maxtimes", "real", "log"], ["call", "ntw", "call"]),
     "earley_prefix": (["bool", "float", "maxtimes"], ["ntw", "ntw", "call"]),
     "rescaled": (["float"], ["call", "logp", "ntw"]),
     "rescaled_prefix": (["float"], ["ntw", "logp", "call"]),
-    "icky": (["bool", "poly", "float", "maxtimes"], ["call", "p_next"]),
+    "icky": (["bool", "poly", "float", "maxtimes", "log"], ["call", "p_next"]),
     "earleylm": (["float"], ["p_next", "p_next", "p_next_async", "prob", "p_next_seq"]),
     "rescaledlm": (["float"], ["p_next", "p_next", "p_next_async", "prob", "p_next_seq"]),
     "ckylm": (["float"], ["p_next", "p_next", "p_next_async", "prob", "p_next_seq"]),
     "boollm_earley": (["bool", "float"], ["p_next", "p_next", "p_next_async", "prob", "p_next_seq"]),
     "boollm_cky": (["bool", "float"], ["p_next", "p_next", "p_next_async", "prob", "p_next_seq"]),
-    "cfg": (["bool", "float", "float", "maxtimes", "real"],
+    "cfg": (["bool", "float", "float", "maxtimes", "real", "log"],
             ["cfgcall", "prefix_weight", "treesum", "materialize", "derivative", "transform", "build_lm",
              "build_lm", "prefix_weight"]),
 }
